@@ -1,6 +1,7 @@
 package rules
 
 import (
+	"go/token"
 	"fmt"
 	"go/types"
 	"strings"
@@ -626,6 +627,49 @@ func (c *Ctx) NoNestedAcquisition(prop string) {
 		if _, ok := pred[f]; ok {
 			bad = true
 			c.R.Fail(rule, Fn(f), c.P.FuncPos(f), "rule evaluation (which runs with key locks held) can reach "+Fn(f)+": a request can wait for a lock it or a peer already holds", "nothing below the dispatch re-enters RunRules or the locker", PathTo(pred, f))
+		}
+	}
+	// nor does it block on a channel shared by the whole process (a package-level semaphore or queue): requests that
+	// hold key locks would wait for capacity held by other requests that wait for their keys
+	isGlobalChan := func(v ssa.Value) (*ssa.Global, bool) {
+		if ct, ok := v.(*ssa.ChangeType); ok {
+			v = ct.X
+		}
+		u, ok := v.(*ssa.UnOp)
+		if !ok || u.Op != token.MUL {
+			return nil, false
+		}
+		g, ok := u.X.(*ssa.Global)
+		return g, ok
+	}
+	for f := range pred {
+		if f.Blocks == nil || !prog.InModule(f) {
+			continue
+		}
+		for _, fb := range f.Blocks {
+			for _, ins := range fb.Instrs {
+				var g *ssa.Global
+				switch x := ins.(type) {
+				case *ssa.Send:
+					g, _ = isGlobalChan(x.Chan)
+				case *ssa.UnOp:
+					if x.Op == token.ARROW {
+						g, _ = isGlobalChan(x.X)
+					}
+				case *ssa.Select:
+					if x.Blocking {
+						for _, st := range x.States {
+							if gg, ok := isGlobalChan(st.Chan); ok {
+								g = gg
+							}
+						}
+					}
+				}
+				if g != nil {
+					bad = true
+					c.R.Fail(rule, Fn(f)+":"+g.Name(), c.Pos(ins), "rule evaluation (which runs with key locks held) blocks on the process-wide channel "+g.Name()+": requests holding keys can wait for capacity held by requests waiting for those keys", "nothing below the dispatch waits on a resource shared between requests", PathTo(pred, f))
+				}
+			}
 		}
 	}
 	c.R.Count("functions_reachable_from_dispatch", len(pred))
